@@ -112,6 +112,7 @@ func racObject(bits int, shape int) (map[string]interface{}, map[string]rval, st
 		L = []int{}
 	}
 	obj["L"], obj["S"], obj["H"] = L, S, H
+	obj["F"] = []float64{2.5, 0.1, 1e16}[shape]
 	var rl []rval
 	for _, x := range L {
 		rl = append(rl, rInt(int64(x)))
@@ -421,6 +422,13 @@ func genExtended(r *rand.Rand, maxDepth, maxSize int) (string, []string) {
 		"v0 += 1 + 2;\n", "v0 -= N * 2;\n", "v0 *= 2;\n", "v0 /= 1 + 1;\n", "v0 += (B0 ? 1 : 2);\n", "v0++;\n", "v0--;\n",
 		"function g24() { 24; }\ng24();\n", "function g280() { 280; }\ng280();\n", "function gv() { v0 = 1; }\ngv();\n",
 		"function gi(a) { if ( a > 1 ) { return 24; } }\ntrace(gi(2));\n",
+		// folded values on both sides of the limits of the 16-bit immediate operand
+		"trace(60 * 60 * 10);\n", "trace(200 * 200);\n", "trace(30000 + 2768);\n", "trace(32767 + 1);\n", "trace(40000 + 1);\n", "trace(65534 - 1 + 1);\n", "trace(2 ** 15);\n", "trace(0 - 32768);\n",
+		// the same pooled literal (floats, integers above the immediate range) more than once, with and without a sign
+		"trace(2.5 || -2.5);\n", "if ( -2.5 || 2.5 ) { trace(31); }\n", "v0 = -70000;\nif ( 70000 ) { trace(32); }\n", "trace(-1.5 * 2);\ntrace(1.5);\n", "trace(70000 + -70000);\n",
+		"function gn() { return -2.5; }\ntrace(gn());\ntrace(2.5);\n", "trace(-(2.5));\ntrace(2.5 > 0);\n", "trace(!2.5);\ntrace(2.5);\n",
+		// float arithmetic does not re-associate
+		"trace(0.1 * 3 * 5);\n", "trace(0.1 + 0.2 + 0.3);\n", "trace(10000000000000000.0 + 1 + 1);\n", "trace(F + 1 + 1);\n", "trace(F * 3 * 5);\n",
 	}
 	for f := 0; f < nf; f++ {
 		extras = append(extras, fmt.Sprintf("trace(f%d(%d, N));\n", f, r.Intn(4)), fmt.Sprintf("v0 = f%d(v0, %d);\n", f, r.Intn(4)))
@@ -492,9 +500,27 @@ func checkC03(src string, watch []string, rep *racReport) *racVio {
 		if !sameObserved(oc, ob, true) {
 			return &racVio{Kind: "second-prepare-changes-the-program", Script: src, Input: desc, Expected: "prepared once: " + oc.String(), Got: "prepared twice: " + ob.String()}
 		}
+		// a Prepare that is refused (the new text parses, the compiler rejects it after it has emitted code and
+		// constants) leaves the accepted program as it was: one more run of all three
+		for _, x := range []*racEval{a, b} {
+			x.e.Script = rejectedPrefix + src
+			err := x.e.Prepare()
+			x.e.Script = src
+			if err == nil {
+				return &racVio{Kind: "invalid-script-accepted", Script: rejectedPrefix + src, Expected: "an error from Prepare", Got: "accepted"}
+			}
+		}
+		oa, ob, oc = a.run(obj, watch), b.run(obj, watch), c.run(obj, watch)
+		if !(oa.failed && ob.failed) && (!sameObserved(oc, ob, true) || !sameObserved(oc, oa, true)) {
+			return &racVio{Kind: "refused-prepare-damages-the-accepted-program", Script: src, Input: "run after Prepare refused " + strconv.Quote(rejectedPrefix) + " + script: " + desc,
+				Expected: "never re-prepared: " + oc.String(), Got: "unoptimised: " + ob.String() + "\noptimised:   " + oa.String()}
+		}
 	}
 	return nil
 }
+
+// a script prefix which parses, makes the compiler emit code and constants, and is then refused by it
+const rejectedPrefix = "trace(123456);\nv9 = \"zz\" + \"yy\";\nif ( v9 ) { trace(77.5); }\n3 += 1;\n"
 
 // line-wise shrinking for scripts given as text (top-level lines that leave the braces balanced)
 func shrinkLines(src string, fails func(string) bool) string {
@@ -559,6 +585,22 @@ func TestRAC_C03(t *testing.T) {
 			break
 		}
 	}
+	// the size limits are applied to the code as compiled, with and without the optimizer alike: a script whose
+	// code exceeds 65535 bytes before folding and fits afterwards (the baseline refuses it in both modes)
+	{
+		var sb strings.Builder
+		sb.WriteString("c = 0;\nif ( B0 ) {\n")
+		for i := 0; i < 5000; i++ {
+			sb.WriteString("y = 2 * 3 + 4;\n")
+		}
+		sb.WriteString("}\nc = c + 1;\nreturn c;\n")
+		src := sb.String()
+		rep.Programs++
+		if v := checkC03(src, []string{"c", "y"}, rep); v != nil && len(rep.Violations) < 12 {
+			v.Script = "(5000 foldable statements inside an if block: generated script of " + strconv.Itoa(len(src)) + " bytes)"
+			rep.Violations = append(rep.Violations, *v)
+		}
+	}
 	for _, v := range rep.Violations {
 		t.Logf("RAC-VIOLATION kind=%s input=%s\nscript:\n%s%s\n%s", v.Kind, v.Input, v.Script, v.Expected, v.Got)
 	}
@@ -596,6 +638,16 @@ func checkC18(src string, rep *racReport) *racVio {
 		if errs := wfProgram(re.e); len(errs) > 0 {
 			sort.Strings(errs)
 			return &racVio{Kind: fmt.Sprintf("ill-formed-code(optimize=%v)", optimize), Script: src, Expected: "well-formed code", Got: strings.Join(errs, "; ")}
+		}
+		// the program the evaluator will execute is still the accepted one after a Prepare that was refused
+		re.e.Script = rejectedPrefix + src
+		err = re.e.Prepare()
+		re.e.Script = src
+		if err != nil {
+			if errs := wfProgram(re.e); len(errs) > 0 {
+				sort.Strings(errs)
+				return &racVio{Kind: fmt.Sprintf("ill-formed-code-after-refused-prepare(optimize=%v)", optimize), Script: src, Expected: "well-formed code", Got: strings.Join(errs, "; ")}
+			}
 		}
 	}
 	return nil
@@ -703,7 +755,8 @@ func TestRAC_C18(t *testing.T) {
 var soupTokens = []string{"(", ")", "{", "}", "[", "]", ",", ";", ".", "..", "=", "+=", "-=", "*=", "/=", "==", "!=", "<", "<=", ">", ">=",
 	"+", "-", "*", "/", "%", "**", "!", "&&", "||", "~=", "!~", "?", ":", "++", "--", "√", "in",
 	"if", "else", "while", "for", "foreach", "function", "return", "switch", "case", "default", "local", "true", "false",
-	"a", "b", "f", "N", "S", "L", "0", "1", "2", "24", "70000", "1.5", `"s"`, `"a\"b"`, "'q'", "/x/", "/(?i)y/i", "// c\n", "#", "$", "@", "\\"}
+	"a", "b", "f", "N", "S", "L", "0", "1", "2", "24", "70000", "1.5", `"s"`, `"a\"b"`, "'q'", "/x/", "/(?i)y/i", "// c\n", "#", "$", "@", "\\",
+	"DEBUG", "OPTIMIZE", "/(?i/", "/(?/", "/(?:a|b/", "/[/", "/(/", "/a/x", "$a", "..", "1..", "√"}
 
 func splitTokens(src string) []string {
 	var out []string
@@ -764,6 +817,13 @@ func tryAPI(src string) (where string, what interface{}) {
 			}
 			where = fmt.Sprintf("Dump(optimize=%v)", optimize)
 			e.Dump()
+			// the evaluator remains usable: Prepare again (the script may have left variables behind), and run
+			where = fmt.Sprintf("second Prepare(optimize=%v)", optimize)
+			if e.Prepare() == nil {
+				obj, _, _ := racObject(5, 0)
+				where = fmt.Sprintf("Execute after second Prepare(optimize=%v)", optimize)
+				e.Execute(obj)
+			}
 		}
 		cancel()
 	}
@@ -783,12 +843,17 @@ func TestRAC_C08(t *testing.T) {
 	r := rand.New(rand.NewSource(int64(seed) + 8000))
 	n := envInt("RAC_N", 3000)
 	seen := map[string]bool{}
-	for i := 0; i < n; i++ {
+	// scripts which touch the names the engine keeps its own settings under
+	settings := []string{"DEBUG = 0;", "OPTIMIZE = 0;", "DEBUG = \"x\"; return 1;", "OPTIMIZE = [1]; return OPTIMIZE;", "DEBUG = 1.5; return DEBUG;", "DEBUG = false; OPTIMIZE = false;", "return DEBUG;",
+		"function DEBUG() { return 1; } return DEBUG();", "foreach DEBUG in [1, 2] { } return 1;", "OPTIMIZE++; return 1;", "DEBUG += 1;", "local DEBUG;"}
+	for i := -len(settings); i < n; i++ {
 		var src string
-		switch i % 4 {
-		case 0:
+		switch {
+		case i < 0:
+			src = settings[-i-1]
+		case i%4 == 0:
 			src, _ = genExtended(r, 1+i%rep.MaxDepth, rep.MaxSize)
-		case 1:
+		case i%4 == 1:
 			// a valid script with a few tokens deleted, duplicated, swapped or replaced
 			base, _ := genExtended(r, 1+i%rep.MaxDepth, rep.MaxSize)
 			toks := splitTokens(base)
@@ -807,7 +872,7 @@ func TestRAC_C08(t *testing.T) {
 				}
 			}
 			src = strings.Join(toks, " ")
-		case 2:
+		case i%4 == 2:
 			var toks []string
 			for k := 0; k < 2+r.Intn(12); k++ {
 				toks = append(toks, soupTokens[r.Intn(len(soupTokens))])
@@ -850,7 +915,7 @@ func TestRAC_C08(t *testing.T) {
 			continue
 		}
 		small := src
-		if i%4 != 3 {
+		if i >= 0 && i%4 != 3 {
 			small = shrinkLines(strings.Join(splitTokens(src), "\n")+"\n", func(s string) bool {
 				w, x := tryAPI(strings.ReplaceAll(s, "\n", " "))
 				return x != nil && w == where
@@ -890,6 +955,8 @@ var fragmentContexts = []string{
 	"foreach x in [1] { %s; }", "foreach x in %s { }", "function g() { %s; }", "function g() { return %s; }", "switch ( 1 ) { case %s { } }", "switch ( %s ) { default { } }",
 	"switch ( 1 ) { case 1 { %s; } }", "switch ( 1 ) { default { %s; } }", "v = %s;", "return %s;", "id(%s);", "id(1, %s);", "v = [%s];", "v = [1, %s];", `v = {"k": %s};`,
 	"return 1; %s;", "if ( 1 ) { return 1; %s; }", "function g() { return 1; %s; }", "while ( 0 ) { return 2; %s; }", "foreach x in [1] { return x; %s; }",
+	"if ( false ) { %s; }", "if ( true ) { } else { %s; }", "while ( false ) { %s; }", "if ( 1 == 2 ) { %s; }", "v = false ? %s : 2;", "v = true ? 2 : %s;", "v = false && %s;", "v = true || %s;",
+	"if ( false ) { function h() { %s; } }", "for ( false ) { %s; }", "switch ( 1 ) { case 2 { %s; } }", "if ( 0 ) { return %s; }",
 	"v = L[%s];", "v = 1 ? %s : 2;", "v = 1 ? 2 : %s;", "v = (%s);", "v = !(%s);", "v = 1 + (%s);", "return id([%s])[0];",
 }
 
